@@ -914,7 +914,9 @@ fn do_command_substitution_for_dot(sh: &mut Shell, tokens: &mut types::Tokens) {
                 }
                 Err(e) => {
                     println_stderr!("cicada: {}", e);
-                    continue;
+                    // empty replacement; a `continue` here would skip the
+                    // index increment below and shift later replacements
+                    types::CommandResult::new()
                 }
             };
 
@@ -962,7 +964,7 @@ fn do_command_substitution_for_dot(sh: &mut Shell, tokens: &mut types::Tokens) {
                         }
                         Err(e) => {
                             println_stderr!("cicada: {}", e);
-                            continue;
+                            types::CommandResult::new()
                         }
                     };
 
